@@ -149,6 +149,13 @@ def raise_needs_args(*_a):
     raise NeedsArgs(1, 2)
 
 
+def return_with_unrebuildable_state(x):
+    """returns normally; its last user_state pickles in the child and cannot be rebuilt on the parent side"""
+    me = _me()
+    me.user_state = {'last_error': NeedsArgs(1, 2)}
+    return x * x
+
+
 def big_result(*_a):
     return b'x' * (1 << 20)
 
